@@ -143,6 +143,17 @@ func (m *mdrv) Call(fn string, msg int, o pr.Opts) (ret string) {
 		os.Setenv("PATH", m.goodPath)
 	case "CloseIn":
 		ret = errStr(m.in.Close())
+	case "OpenBoth": // two goroutines, one port each, at the same time
+		var e1, e2 error
+		var wg sync.WaitGroup
+		wg.Add(2)
+		go func() { defer wg.Done(); e1 = m.in.Open() }()
+		go func() { defer wg.Done(); e2 = m.out.Open() }()
+		wg.Wait()
+		ret = errStr(e1)
+		if e1 == nil {
+			ret = errStr(e2)
+		}
 	case "OpenOut":
 		ret = errStr(m.out.Open())
 	case "CloseOut":
@@ -291,6 +302,11 @@ func genHistory(r *rand.Rand, id, n int) pr.History {
 	for len(h.Steps) < n {
 		switch k := r.Intn(20); {
 		case k < 2:
+			if r.Intn(3) == 0 {
+				h.Steps = append(h.Steps, pr.Step{Fn: "OpenBoth"})
+				inOpen, outOpen = true, true
+				break
+			}
 			h.Steps = append(h.Steps, pr.Step{Fn: "OpenIn"})
 			inOpen = true
 		case k < 3:
@@ -356,6 +372,23 @@ func genHistory(r *rand.Rand, id, n int) pr.History {
 			}
 		}
 	}
+	return h
+}
+
+// genCycles: both ports opened once, then 5..7 cycles of Listen, sends, Stop, a send nobody may get; then both closed.
+func genCycles(r *rand.Rand, id int) pr.History {
+	h := pr.History{ID: id, Kind: "midicat", Steps: []pr.Step{{Fn: "OpenBoth"}}}
+	next := 1
+	for c := 5 + r.Intn(3); c > 0; c-- {
+		h.Steps = append(h.Steps, pr.Step{Fn: "Listen"})
+		for j := r.Intn(3); j > 0; j-- {
+			h.Steps = append(h.Steps, pr.Step{Fn: "Send", M: next})
+			next++
+		}
+		h.Steps = append(h.Steps, pr.Step{Fn: "Stop"}, pr.Step{Fn: "Send", M: next})
+		next++
+	}
+	h.Steps = append(h.Steps, pr.Step{Fn: "CloseIn"}, pr.Step{Fn: "CloseOut"})
 	return h
 }
 
@@ -544,6 +577,9 @@ func mainRest() {
 		failed := 0
 		for i := 0; i < *n; i++ {
 			h := genHistory(r, i, 5+r.Intn(*steps))
+			if i == 1 { // one scripted history: many listen / stop cycles on ONE open generation of the in port
+				h = genCycles(r, i)
+			}
 			if !runOne(&h, w) {
 				w.Close()
 				os.Exit(0)
